@@ -1565,7 +1565,7 @@ class BinaryQuadraticModel(QuadraticViewsMixin):
             return not round(a - b, places)
 
         try:
-            if isinstance(other, QuadraticModel):
+            if callable(other.vartype):
                 vartype_eq = all(other.vartype(v) is self.vartype for v in other.variables)
             else:
                 vartype_eq = self.vartype == other.vartype
